@@ -65,10 +65,15 @@ type (
 
 		mu        *sync.RWMutex
 		status    Status
-		chanList  []chan struct{}
+		chanList  []chan waitResult
 		response  *HTTPResponse
 		createdAt int64
 		expiredAt int64
+	}
+	// waitResult the result of fetching which is sent to the waiting requests
+	waitResult struct {
+		status   Status
+		response *HTTPResponse
 	}
 )
 
@@ -118,13 +123,12 @@ func (hc *httpCache) Get() (status Status, response *HTTPResponse) {
 	if done != nil {
 		// TODO 后续再考虑是否需要添加timeout（proxy部分有超时，因此暂时可不添加)
 		verifPoint("get.registered")
-		<-done
+		result := <-done
 		verifPoint("get.woken")
-		// 完成后重新获取当前状态与响应
-		// 此时状态只可能是hit for pass 或者 hit
-		// 而此两种状态的数据缓存均不会立即失效，因此可以从hc中获取
-		status = hc.status
-		response = hc.response
+		// 完成后使用fetching请求设置的状态与响应(hit for pass 或者 hit)
+		// 不能无锁地再次读取hc中的数据，因为此时缓存有可能已过期并被后续请求重置为fetching
+		status = result.status
+		response = result.response
 	}
 	return
 }
@@ -214,7 +218,7 @@ func (hc *httpCache) saveToStore() (err error) {
 	return hc.store.Set(hc.key, data, ttl)
 }
 
-func (hc *httpCache) get() (status Status, done chan struct{}, data *HTTPResponse) {
+func (hc *httpCache) get() (status Status, done chan waitResult, data *HTTPResponse) {
 	now := nowUnix()
 	// 如果首次创建并且设置store
 	if hc.status == StatusUnknown {
@@ -240,13 +244,13 @@ func (hc *httpCache) get() (status Status, done chan struct{}, data *HTTPRespons
 	// 如果是fetching，则相同的请求需要等待完成
 	// 通过chan返回完成
 	if hc.status == StatusFetching {
-		done = make(chan struct{})
+		done = make(chan waitResult)
 		hc.chanList = append(hc.chanList, done)
 	}
 
 	if hc.status == StatusUnknown {
 		hc.status = StatusFetching
-		hc.chanList = make([]chan struct{}, 0, 5)
+		hc.chanList = make([]chan waitResult, 0, 5)
 	}
 
 	status = hc.status
@@ -272,7 +276,7 @@ func (hc *httpCache) HitForPass(ttl int) {
 	list := hc.chanList
 	hc.chanList = nil
 	for _, ch := range list {
-		ch <- struct{}{}
+		ch <- waitResult{status: StatusHitForPass}
 	}
 	verifPoint("hfp.released")
 	err := hc.saveToStore()
@@ -301,7 +305,7 @@ func (hc *httpCache) Cacheable(resp *HTTPResponse, ttl int) {
 	list := hc.chanList
 	hc.chanList = nil
 	for _, ch := range list {
-		ch <- struct{}{}
+		ch <- waitResult{status: StatusHit, response: resp}
 	}
 	verifPoint("cacheable.released")
 	err := hc.saveToStore()
